@@ -356,8 +356,12 @@ func TestVerifC15(t *testing.T) {
 		p := &Route{Auto: true, Prefix: mp("::/0"), Preference: prefs[pi], Lifetime: time.Duration(pi+1) * time.Hour}
 		p.Routes = func() ([]system.Route, error) {
 			out := make([]system.Route, len(list))
+			// The same destination may be listed once per loopback interface and with
+			// different kernel preferences: those fields vary independently of the prefix.
+			h := vlib.Hash64(id)
 			for i, x := range list {
-				out[i] = system.Route{Prefix: x, Index: 1, Preference: ndp.Medium}
+				v := (h >> (uint(i) % 60)) + uint64(i)*2654435761
+				out[i] = system.Route{Prefix: x, Index: []int{1, 1, 7}[v%3], Preference: []ndp.Preference{ndp.Medium, ndp.Low, ndp.High, ndp.Medium}[(v/3)%4]}
 			}
 			return out, nil
 		}
